@@ -14,7 +14,7 @@ CFG = dict(
                "arming time + one round's allowance), and the 'only latest' / 'once per round' clauses WITHOUT the increasing-rounds "
                "hypothesis (the real timer never stops earlier timers, it only compares round values at expiry). "
                "'Never early' is an assumption of the model (expire is enabled only at now >= deadline: Go timers do not fire early); the "
-               "harness measures it on the real timer on every run.",
+               "harness measures it on the real timer on every run. Wiring: engine `vglue -mode timers` compares the timer each role's controller gets from the production SetupRunners with a timer built by roundtimer.New for that role (oracle only).",
     level_note="Trusted: Lean kernel (axioms propext/Classical.choice/Quot.sound only), the go/ast fact extractor, the harness (mock BeaconNetwork, "
                "scripts in real time at millisecond scale through the verif-tagged VerifSetTimeoutOptions setter), the Go runtime (time.Timer never "
                "early, atomic int64, context cancellation), atomicity of the round check and the callback call in waitForRound. "
@@ -28,7 +28,10 @@ CFG = dict(
              # validator-level glue (implementation-side oracle only, no model driver): real timeout EVENT messages for evicted / never-run /
              # decided heights and lower rounds through the real Validator.ProcessMessage -> handleEventMessage; see notes/C17_glue.md
              dict(harness="runner", driver=None, args=["-mode", "c17"], case_delim="reset", n_quick=80, n_thorough=2000, thorough_seeds=2,
-                  n_search=300, search_seeds=2)],
+                  n_search=300, search_seeds=2),
+             # wiring (implementation-side oracle only): the timer each role's controller gets from the production SetupRunners gives that role's deadline
+             # (compared with a timer built by the real roundtimer.New for the role); seeded change W-m04 (one shared attester timer for all roles)
+             dict(harness="vglue", driver=None, args=["-mode", "timers"], case_delim="tcase", n_quick=2, n_thorough=4, thorough_seeds=1, n_search=2, search_seeds=1)],
     rule="per seed: n timer cases (1-5 armings, rounds strictly increasing with jumps, re-arm before expiry / after expiry / random gap, deadlines already "
          "passed at arming (25% late duty starts: 0..several rounds overdue, then left alone >= 400 ms for the liveness oracle), parent-context cancel with later armings, 18% at the points the quantifier excludes: same round twice, round re-armed after being "
          "superseded, new height on the shared timer), each executed at least twice on the real RoundTimer and re-run in isolation if executions differ or "
